@@ -158,7 +158,7 @@ func lhEntryEq(a, b nebula.VerifC35Entry) bool { return lhEntryLit(a) == lhEntry
 type lhDelta struct {
 	keys     []nebula.VerifC35Key // new or remapped keys
 	recs     []nebula.VerifC35Rec // new or changed records (complete)
-	changed  [][2]string         // (record id, owner) of changed cache entries, as strings
+	changed  [][2]string          // (record id, owner) of changed cache entries, as strings
 	newKeys  []netip.Addr
 	remapped bool // an existing key now maps to another record, a key vanished, or a record's address list changed
 }
@@ -714,6 +714,105 @@ func runLighthouse(c *hx.Ctx) {
 		h.v.Close()
 		cw.Add(h.lit(sc.cfg), "row-sweep", h.acc > len(sc.learns),
 			map[string]any{"row": fmt.Sprintf("%+v", r), "cfg": lhCfgDesc(sc.cfg), "steps": h.descs})
+	}
+	// 1b. carry-over probes: ONE handler (as production's per-listener handler) sees a message that carries address and
+	// relay lists in the legacy (v1) and the v2 fields - ignored or accepted - and then an accepted message of another
+	// tunnel with fewer or no such fields, followed by a query for what was stored. Nothing of the first message may
+	// show up in what the second one stores or in what is served.
+	for i := 0; i < 48; i++ {
+		p := &lhPool{c: c, used: map[netip.Addr]bool{}}
+		am := i%2 == 0
+		y := []netip.Addr{p.vpn(true)}
+		if c.Chance(0.4) {
+			y = append(y, p.vpn(c.Chance(0.5)))
+		}
+		x := []netip.Addr{p.vpn(c.Chance(0.7))}
+		if c.Chance(0.3) {
+			x = append(x, p.vpn(true))
+		}
+		lhAddr := p.vpn(true)
+		a := p.vpn(true) // the host a lighthouse reply is about
+		r1, r2, r3 := p.vpn(true), p.vpn(true), p.vpn(false)
+		cfg := nebula.VerifC35Cfg{AmLighthouse: am, MyNetworks: lhNets, InitV1: c.Chance(0.5), Respond: c.Chance(0.5)}
+		if !am || c.Chance(0.3) {
+			cfg.Lighthouses = []netip.Addr{lhAddr}
+		}
+		h := lhNewHist(cfg)
+		// first message: full of lists, in every field
+		m1 := nebula.VerifC35Msg{HasDetails: true}
+		types1 := []string{"t_host_update", "t_host_update", "t_host_query_reply", "t_host_punch", "t_host_query", "t_host_moved", "t_host_update_ack"}
+		m1.Type = uint32(nebula.VerifC35Types[types1[c.Intn(len(types1))]])
+		if y[0].Is4() && c.Chance(0.6) {
+			m1.Old = lhU32(y[0])
+		} else {
+			hl := lhHL(y[0])
+			m1.Vpn = &hl
+		}
+		m1.ORelay = []uint32{lhU32(r1), lhU32(r2)}
+		if c.Chance(0.5) {
+			m1.Relay = [][2]uint64{lhHL(r3)}
+		}
+		for k := 0; k < 2+c.Intn(3); k++ {
+			m1.V4 = append(m1.V4, lhUnderV4(c, true))
+		}
+		if c.Chance(0.6) {
+			m1.V6 = append(m1.V6, lhUnderV6(c, true))
+		}
+		first := y
+		if c.Chance(0.25) && len(cfg.Lighthouses) > 0 {
+			first = []netip.Addr{lhAddr}
+		}
+		h.msg(first, nebula.VerifC35Marshal(m1))
+		// second message: another tunnel, accepted, few or no lists, mostly without the legacy fields
+		var m2 nebula.VerifC35Msg
+		var from2 []netip.Addr
+		about := x[0]
+		if am {
+			from2 = x
+			m2 = nebula.VerifC35Msg{Type: uint32(nebula.VerifC35Types["t_host_update"]), HasDetails: true}
+			if c.Chance(0.5) {
+				hl := lhHL(x[0])
+				m2.Vpn = &hl
+			} else if x[0].Is4() && c.Chance(0.5) {
+				m2.Old = lhU32(x[0])
+			}
+		} else {
+			from2 = []netip.Addr{lhAddr}
+			about = a
+			m2 = nebula.VerifC35Msg{Type: uint32(nebula.VerifC35Types["t_host_query_reply"]), HasDetails: true}
+			if c.Chance(0.5) {
+				m2.Old = lhU32(a)
+			} else {
+				hl := lhHL(a)
+				m2.Vpn = &hl
+			}
+		}
+		if c.Chance(0.7) {
+			m2.V4 = append(m2.V4, lhUnderV4(c, true))
+		}
+		if c.Chance(0.3) {
+			m2.Relay = [][2]uint64{lhHL(p.vpn(true))}
+		}
+		if c.Chance(0.2) {
+			m2.ORelay = []uint32{lhU32(p.vpn(true))}
+		}
+		h.msg(from2, nebula.VerifC35Marshal(m2))
+		// a query for what the second message was about (answered on a lighthouse), in either encoding
+		q := nebula.VerifC35Msg{Type: uint32(nebula.VerifC35Types["t_host_query"]), HasDetails: true}
+		if about.Is4() && c.Chance(0.5) {
+			q.Old = lhU32(about)
+		} else {
+			hl := lhHL(about)
+			q.Vpn = &hl
+		}
+		h.msg(y, nebula.VerifC35Marshal(q))
+		// and once more an update/reply without any lists, then the query again
+		m3 := m2
+		m3.V4, m3.V6, m3.Relay, m3.ORelay = nil, nil, nil, nil
+		h.msg(from2, nebula.VerifC35Marshal(m3))
+		h.msg(y, nebula.VerifC35Marshal(q))
+		h.v.Close()
+		cw.Add(h.lit(cfg), "carry-over-probe", h.acc >= 2, map[string]any{"cfg": lhCfgDesc(cfg), "steps": h.descs})
 	}
 	// 2. random histories
 	for i := 0; i < c.N; i++ {
